@@ -79,6 +79,9 @@ struct Outcome {
     setup_ok: bool,
     /// Channel.CloseOk frames the client wrote on the channel the server closes (None: stream undecodable)
     closeok_on_n: Option<usize>,
+    /// Channel.Open frames the client wrote on ids other than the two set-up channels: the channel-0 request
+    /// open_channel was accepted by the I/O thread (None: stream undecodable)
+    extra_channel_opens: Option<usize>,
 }
 
 fn norm(r: &OpResult) -> String {
@@ -244,6 +247,15 @@ fn run_one(seq: &[usize], v: &Variant, mode: Mode, cs: ChoiceStream, text: bool)
         steps: res.run.fin.stats.steps,
         sim_ns: res.run.fin.sim_ns,
         setup_ok: true,
+        extra_channel_opens: {
+            let n = world.net.lock().unwrap();
+            crate::oracles::decode_c2s(&n.c2s).ok().map(|per| {
+                per.iter()
+                    .filter(|(ch, _)| **ch != n_id && **ch != m_id && **ch != 0)
+                    .map(|(_, v)| v.iter().filter(|(_, _, f)| matches!(f, amq_protocol::frame::AMQPFrame::Method(_, amq_protocol::protocol::AMQPClass::Channel(amq_protocol::protocol::channel::AMQPMethod::Open(_))))).count())
+                    .sum()
+            })
+        },
         closeok_on_n: {
             let n = world.net.lock().unwrap();
             crate::oracles::decode_c2s(&n.c2s).ok().map(|per| {
@@ -392,6 +404,26 @@ impl Scenario for C20 {
             if x.closeok_on_n != Some(1) {
                 rep.violate("channel-close-ok", if x.closeok_on_n == Some(0) { "missing" } else { "not-exactly-one" }, format!("events {:?} in one batch: the server closed channel 1, the client wrote {:?} Channel.CloseOk frames on it", seq.iter().map(|k| KINDS[*k]).collect::<Vec<_>>(), x.closeok_on_n));
                 return rep;
+            }
+        }
+        // an open_channel that the I/O thread took from its allocation queue before it handled the server's
+        // connection close (the request precedes the close in the batch, and the batch really held everything)
+        // "either takes effect before the close or fails with the close's error": the new channel's slot exists
+        // when the close is handled, so it must be told.  The differential clause below cannot see a defect that
+        // bends the serial runs the same way (there, too, the open may still await its OpenOk when the close comes).
+        if v.c0_kind == 1 && x.max_batch >= tokens {
+            // (both server closes travel in the one byte stream: the socket's place in the batch is that of the
+            // first of them)
+            let p_stream = seq.iter().position(|k| *k == 0 || *k == 1);
+            if let (Some(p2), Some(ps), true, Some(g)) = (seq.iter().position(|k| *k == 2), p_stream, seq.contains(&0), &x.c0) {
+                if p2 < ps {
+                    rep.count("c20.open_channel_accepted_before_connection_close", 1);
+                    let want = format!("ServerClosedConnection({},CONNECTION_FORCED-{})", v.code, v.code);
+                    if g != "ok" && g != &want {
+                        rep.violate("accepted-request-error", "open-channel", format!("events {:?} in one batch: open_channel was taken from the allocation queue before the close was handled and ended as {:?}: neither success nor the close's error {}", seq.iter().map(|k| KINDS[*k]).collect::<Vec<_>>(), g, want));
+                        return rep;
+                    }
+                }
             }
         }
         // "fails with the close's error" — the errors the statement itself names
